@@ -52,7 +52,7 @@ func checkTrieLayer(r *rec, b trie.Builder, tc *trieCase) (builderOK bool) {
 	b.Reset()
 	if p, what := guard(func() { b.Build(keys, vals) }); p {
 		class := "C20/trie/panic-build"
-		if or.n() == 1 && len(or.sorted[0].k) == 0 {
+		if or.n() == 1 && len(or.sorted[0].k) == 0 && isBuildEmptyKeyPanic(what) {
 			class = "C20/trie/build-only-empty-key"
 		}
 		r.viol(class, fmt.Sprintf("builder.Build panicked on %d keys: %s", or.n(), what), tc.wit("builder", "Build", nil, nil))
